@@ -1,0 +1,62 @@
+//go:build verif
+// +build verif
+
+package lql
+
+import (
+	"strings"
+	"time"
+
+	"github.com/alecthomas/participle/lexer"
+)
+
+// VC05Token is one lexer token: the name of its class in the lexer regexp and its text.
+type VC05Token struct {
+	Type  string
+	Value string
+}
+
+func vc05Consume(lx lexer.Lexer, def lexer.Definition) ([]VC05Token, error) {
+	names := lexer.SymbolsByRune(def)
+	var res []VC05Token
+	for {
+		t, err := lx.Next()
+		if err != nil {
+			return nil, err
+		}
+		if t.EOF() {
+			return res, nil
+		}
+		res = append(res, VC05Token{Type: names[t.Type], Value: t.Value})
+	}
+}
+
+// VC05Lex returns the raw token stream of the LQL lexer (lexer.go) for the text.
+func VC05Lex(text string) ([]VC05Token, error) {
+	lx, err := lqlLexer.Lex(strings.NewReader(text))
+	if err != nil {
+		return nil, err
+	}
+	return vc05Consume(lx, lqlLexer)
+}
+
+// VC05LexMapped returns the token stream the expression parser sees (String tokens unquoted).
+func VC05LexMapped(text string) (res []VC05Token, err error) {
+	toks, err := parserExpr.Lex(strings.NewReader(text))
+	if err != nil {
+		return nil, err
+	}
+	names := lexer.SymbolsByRune(lqlLexer)
+	for _, t := range toks {
+		if t.EOF() {
+			break
+		}
+		res = append(res, VC05Token{Type: names[t.Type], Value: t.Value})
+	}
+	return res, nil
+}
+
+// VC05ParseLqlDateTime is parseLqlDateTime.
+func VC05ParseLqlDateTime(s string) (time.Time, error) {
+	return parseLqlDateTime(s)
+}
